@@ -189,6 +189,59 @@ def exec_case(case):
     return {"res": res, "extra": extra}
 
 
+def cross_file_job(arg):
+    files, argv, targets = arg
+    d = runner.new_dir("x")
+    runner.write_tree(d, files)
+    r = runner.cli(argv + targets, d)
+    vs = r.violations()
+    return {"exit": r.exit, "v": None if vs is None else sorted([v["rule_id"], os.path.normpath(v["file_path"]), v["line"], v["message"][:200]] for v in vs), "err": r.err[-300:]}
+
+
+def run_cross_file(ctx, rng):
+    """Ignored / excluded files must not contribute to CROSS-FILE findings either: every duplicated block and every repeated string set of this
+    project has exactly one occurrence outside the ignored places, so nothing may be reported - sequentially or with the worker pool."""
+    def block(tag):
+        return "".join("    xf_val_%s_%d = xf_compute_%s_%d(alpha, beta) + xf_offset_%s_%d\n" % (tag, k, tag, k, tag, k) for k in range(5))
+
+    def module(tag, name):
+        return ("def %s_%s(alpha, beta, mode_%s):\n%s    if mode_%s in (\"north_%s\", \"south_%s\", \"east_%s\"):\n        return 1\n    return 0\n" % (name, tag, tag, block(tag), tag, tag, tag, tag))
+    places = {"thailintignore-dir": "generated/", "thailintignore-glob": "*_pb.py", "config-ignore": "vendored/", "hard-excluded": None, "thailintignore-exact": "legacy/old_billing.py"}
+    files = {}
+    ign, cfg_ign = [], []
+    for i in range(6):
+        for kind, twin in (("thailintignore-dir", "generated/twin%d.py"), ("thailintignore-glob", "pkg/twin%d_pb.py"), ("config-ignore", "vendored/twin%d.py"),
+                           ("hard-excluded", "node_modules/dep/twin%d.py"), ("thailintignore-exact", "legacy/old_billing.py" if i == 0 else None)):
+            if twin is None:
+                continue
+            tag = "%s%d" % (kind.replace("-", "")[:6], i)
+            files["pkg/%s_live.py" % tag] = module(tag, "live")
+            files[twin % i if "%d" in twin else twin] = module(tag, "twin")
+    ign = ["generated/", "*_pb.py", "legacy/old_billing.py"]
+    files[".thailintignore"] = "\n".join(ign) + "\n"
+    files[".thailint.yaml"] = "ignore:\n  - \"vendored/\"\ndry:\n  enabled: true\n  min_duplicate_lines: 3\nstringly-typed:\n  min_occurrences: 2\n"
+    ignored = sorted(f for f in files if f.startswith(("generated/", "vendored/", "node_modules/", "legacy/")) or f.endswith("_pb.py"))
+    jobs, meta = [], []
+    for cmd in ("dry", "stringly-typed"):
+        for par in ([], ["--parallel"]):
+            for tname, targets in (("dot", ["."]), ("dirs", ["pkg", "generated", "vendored", "legacy", "node_modules"]), ("explicit", sorted(f for f in files if f.endswith(".py")))):
+                jobs.append((files, [cmd, "--format", "json"] + par, targets))
+                meta.append((cmd, bool(par), tname))
+    for (cmd, par, tname), o in zip(meta, runner.pmap(cross_file_job, jobs, timeout=600)):
+        if not o.get("ok") or o["value"]["v"] is None:
+            ctx.inconclusive_if(True, "cross-file job %s failed: %s" % ((cmd, par, tname), str(o)[:300]))
+            continue
+        ctx.evaluations += 1
+        ctx.count("cross_file_runs")
+        ctx.nontrivial(["cross-file", cmd, par, tname])
+        v = o["value"]["v"]
+        if v:
+            from_ignored = [x for x in v if x[1] in ignored]
+            key = "ignored-file-reported-by-cross-file-rule" if from_ignored else "ignored-file-contributes-to-cross-file-finding"
+            ctx.discrepancy("%s:%s%s" % (key, cmd, ":parallel" if par else ""), "`%s%s` on targets %s (%d files, %d of them ignored or excluded): %d finding(s) although every block / string set occurs once outside the ignored places, e.g. %r" % (
+                cmd, " --parallel" if par else "", tname, len(files) - 2, len(ignored), len(v), v[0]), {"argv": [cmd, "--format", "json"] + (["--parallel"] if par else []), "targets": tname}, files)
+
+
 def run(ctx):
     ctx.rule = ("case = generated tree (hidden dirs, excluded names at any depth and as file names, look-alikes, artefacts, empty dirs) x ignore-pattern set "
                 "(.thailintignore / yaml ignore / both) x targets (., sub-directory, explicit files incl. excluded/ignored ones, mixtures) x recursive flag; "
@@ -197,6 +250,7 @@ def run(ctx):
                        "planted markers: file-placement global_deny '.*' for every file type, a magic number in every source file with a neutral name",
                        "symlinks are not generated"]
     rng = ctx.rng()
+    run_cross_file(ctx, rng)
     cases = []
     for i in range(ctx.size(500, 6000)):
         dirs, files = gen_tree(rng)
